@@ -270,6 +270,9 @@ def strptime_guards(run: Run, model: PyModel) -> None:
                         if c in sites and not isinstance(_enclosing_partial(node, c), ast.Call):
                             n += 1
                             arg = ast.unparse(c)
+                            for a in c.args[1:2]:  # the format may be a module-level constant
+                                if isinstance(a, ast.Name) and isinstance(m.module.assigns.get(a.id), ast.Constant):
+                                    arg += " " + repr(m.module.assigns[a.id].value)
                             need = "is_long_date_spec" if "%Y-%m-%d" in arg else ("is_zid" if "zid" in arg else "is_short_date_spec")
                             run.check("C08.R1", f"{m.name}: strptime site guarded by {need}", need in guards or (need == "is_short_date_spec" and "is_zid" in guards), m.name, c,
                                       f"`{ast.unparse(c)[:70]}` is reached on a path that has not established `{need}(...)`: a date-shaped word that is not a calendar date raises ValueError",
@@ -396,6 +399,9 @@ def check(run: Run) -> None:
               f"tag names {sorted(passed - set(keys))} are used as keys but the default map only has {keys}: KeyError while compiling", file=FILE_C)
     # recovered trees: walker.walk is fenced
     fa = model.func(API)
+    from ..flatten import flat_info as _flat_info
+
+    fa_flat = _flat_info(model, fa.qualname)  # `prog()` may live in an extracted `_parse_zorg_file` helper
     walk_calls = [c for c in ast.walk(fa.node) if isinstance(c, ast.Call) and isinstance(c.func, ast.Attribute) and c.func.attr == "walk"]
     fenced = False
     for t in walk_no_nested(fa.node):
@@ -462,7 +468,7 @@ def check(run: Run) -> None:
 
     # ---- R5
     pr_ok = True
-    for p in enum_paths(fa.node):
+    for p in enum_paths(fa_flat.node):
         pr = first_index(p, lambda x: isinstance(x, ast.Call) and isinstance(x.func, ast.Attribute) and x.func.attr == "prog")
         wk = first_index(p, lambda x: isinstance(x, ast.Call) and isinstance(x.func, ast.Attribute) and x.func.attr == "walk")
         if wk >= 0 and not (0 <= pr < wk):
@@ -490,7 +496,7 @@ def check(run: Run) -> None:
             all_rec = False
     run.check("C08.R5", "every syntax error reported by the parser is recorded", all_rec and k > 0, "ErrorManager.syntaxError", "a path returns without recording the error",
               "ErrorManager.syntaxError can return without appending to `errors`: some syntax errors (e.g. those at end of file) are ignored, the page is not flagged and is indexed partially", file=FILE_C, node=se.node)
-    reg = any(isinstance(c, ast.Call) and isinstance(c.func, ast.Attribute) and c.func.attr == "addErrorListener" for c in ast.walk(fa.node))
+    reg = any(isinstance(c, ast.Call) and isinstance(c.func, ast.Attribute) and c.func.attr == "addErrorListener" for c in ast.walk(fa_flat.node))
     run.check("C08.R5", "the error manager is registered with the parser", reg, "walk_zorg_page", "addErrorListener", "the ErrorManager is not registered as an error listener", file=FILE_A, node=fa.node)
     run.units = dict(slice_functions=len(funcs), typestate=ts.stats, obligations_local=n_ob)
     run.trusted = ["totality of the ANTLR runtime itself", "ParseTreeWalker contract"]
